@@ -521,6 +521,34 @@ func c18RoundTrip(value string) (bad string) {
 	return c18RoundTripOn(f, &got, value)
 }
 
+// c18RoundTripVia: the cookie is set at another moment of the request than the handler body - inside a function
+// registered to run before the first write (as a session middleware saves its cookie), or by a middleware after
+// Next() returned with nothing written yet. The headers have not gone out at either moment.
+func c18RoundTripVia(value, how string) (bad string) {
+	f := flamego.NewWithLogger(io.Discard)
+	got := "\x00unset"
+	set := func(c flamego.Context) { c.SetCookie(http.Cookie{Name: "ck", Value: value, Path: "/"}) }
+	switch how {
+	case "before-function":
+		f.Get("/set", func(c flamego.Context) {
+			c.ResponseWriter().Before(func(flamego.ResponseWriter) { set(c) })
+			_, _ = c.ResponseWriter().Write([]byte("body"))
+		})
+	case "before-function/explicit-status":
+		f.Get("/set", func(c flamego.Context) {
+			c.ResponseWriter().Before(func(flamego.ResponseWriter) { set(c) })
+			c.ResponseWriter().WriteHeader(204)
+		})
+	case "after-next":
+		f.Get("/set", func(c flamego.Context) { c.Next(); set(c) }, func() {})
+	}
+	f.Get("/get", func(c flamego.Context) { got = c.Cookie("ck") })
+	if bad = c18RoundTripOn(f, &got, value); bad != "" {
+		return "cookie set " + how + ": " + bad
+	}
+	return ""
+}
+
 func c18RoundTripOn(f *flamego.Flame, got *string, value string) (bad string) {
 	spy := &c01Spy{hdr: http.Header{}}
 	var pan interface{}
@@ -599,7 +627,7 @@ func c18Run(r *core.Run) {
 		maxLen = 3
 		r.SetBudget(12 * time.Minute)
 	}
-	r.Rule = "engine E: raw query text / bind parameter text / cookie text = absent, empty, EVERY byte string of length <=2 (thorough 3) over all 256 bytes, and a numeric corpus (signs, bases, overflow, 1e999, NaN, blanks) through every accessor with and without a default (queries also with the parameter name percent-escaped); cookie values of every byte string of length <=2 (thorough 3) through SetCookie -> Set-Cookie -> client -> Cookie header -> Cookie(); oracle: no panic, presence by url.ParseQuery / http.Request.Cookie, value by strconv (0 on malformed), absent or empty gives the default or zero, cookies read back byte for byte; request data read before and after a sub-request served on the same instance inside the handler (after 0..2 earlier requests) is the request's own; bind parameters read after requests that the same routes refused half way (capture limit overrun, last segment missing); non-trivial = text that is present and non-numeric, or a cookie value containing a byte outside [A-Za-z0-9]"
+	r.Rule = "engine E: raw query text / bind parameter text / cookie text = absent, empty, EVERY byte string of length <=2 (thorough 3) over all 256 bytes, and a numeric corpus (signs, bases, overflow, 1e999, NaN, blanks) through every accessor with and without a default (queries also with the parameter name percent-escaped); cookie values of every byte string of length <=2 (thorough 3) through SetCookie -> Set-Cookie -> client -> Cookie header -> Cookie(); oracle: no panic, presence by url.ParseQuery / http.Request.Cookie, value by strconv (0 on malformed), absent or empty gives the default or zero, cookies read back byte for byte (also when set inside a before-function of the writer or after Next()); request data read before and after a sub-request served on the same instance inside the handler (after 0..2 earlier requests) is the request's own; bind parameters read after requests that the same routes refused half way (capture limit overrun, last segment missing); non-trivial = text that is present and non-numeric, or a cookie value containing a byte outside [A-Za-z0-9]"
 	r.Assumptions = []string{"net/url, net/http cookie parsing and strconv are the reference parsers (trusted)", "QueryTrim/QueryUnescape apply their conversion to the default as well; the default used (DEF) is not altered by either", "QueryStrings returns the list as parsed when the key occurs at all (a list holding one empty string is a present list)"}
 	numeric := []string{"0", "1", "-1", "+1", "007", "12345678901234567890", "-9223372036854775808", "9223372036854775807", "9223372036854775808", "0x10", "1e3", "1e999", "-1e999", "NaN", "nan", "Inf", "-inf", " 1", "1 ", "1_000", "1.5", ".5", "5.", "true", "TRUE", "t", "T", "1", "false", "F", "yes", "１", "%31", "%2B1", "+", "-", "1%001",
 		// values that still hold a percent sign once the query string is decoded (well-formed and malformed escapes)
@@ -843,6 +871,17 @@ func c18Run(r *core.Run) {
 		} else {
 			l.Class("cookie:round-trip")
 		}
+		for _, how := range []string{"before-function", "before-function/explicit-status", "after-next"} {
+			l.Evals++
+			l.Transitions++
+			l.Traces++
+			l.NonTrivial++
+			if bad := c18RoundTripVia(v, how); bad != "" {
+				l.Violate("cookie-roundtrip/"+how, bad, c18Case{Mode: "cookie-roundtrip-via", RawHex: fmt.Sprintf("%x", v), Raw: fmt.Sprintf("%q", trunc(v)), Inner: how})
+			} else {
+				l.Class("cookie:round-trip:" + how)
+			}
+		}
 	}
 	r.Merge(l)
 }
@@ -873,6 +912,8 @@ func c18Replay(raw json.RawMessage) (bool, string) {
 		bad, _, _ = c18CookieRead(w, s, c.Absent)
 	case "cookie-roundtrip":
 		bad = c18RoundTrip(s)
+	case "cookie-roundtrip-via":
+		bad = c18RoundTripVia(s, c.Inner)
 	case "same-segment":
 		bad = c18SameSegment(c.Absent, s, c.Raw)
 	case "multibind":
